@@ -433,9 +433,37 @@ Definition live_test_from (off : nat) (i : c06_in) : bool :=
   | _ => false
   end.
 
+(* ---------- WHEN the call may GIVE UP (C06_giveup_only_after_asking_all; C06_liveness read on the observers that were
+   never asked) ----------
+   [asked_for log ch]: the addressees of the observation requests in the Send log that name lane ch (accepted by
+   PeerClient.Send or not: the code enters a node into requestedNodes before it tries to send, and the model logs the
+   failed Send calls too).  ErrInsufficientObservationResponses (kind 5) may be reported only when the observers the
+   call never asked could not have completed the thresholds: if some observer of some lane was never asked and on EVERY
+   lane the voters of the best root in the script together with the never-asked observers of that lane are F_home+1
+   distinct nodes, then in the world where exactly the never-asked observers are honest and ready the call fails
+   although enough honest nodes would answer in time.  (The liveness twin [live_test_from] cannot see this: the harness
+   scripts answers only to requests that were sent, so the honest observers that were never asked never answer.) *)
+Definition asked_for (log : list send_t) (ch : chain) : list node :=
+  map snd_node (filter (fun s => is_k0 s && memN ch (snd_chains s)) log).
+Definition unasked (log : list send_t) (u : upd) : list node :=
+  filter (fun n => negb (memN n (asked_for log (u_chain u)))) (u_nodes u).
+Definition have_votes (cfg : config) (its : list item) (u : upd) : list node :=
+  let best := best_root cfg u its in if N.eqb best 0 then [] else voters cfg u best its.
+Definition reachable_with (cfg : config) (its : list item) (log : list send_t) (u : upd) : bool :=
+  gte_f_plus_one (u_F u) (zlen (dedupN (have_votes cfg its u ++ unasked log u))).
+Definition giveup_ok (cfg : config) (its : list item) (o : out1) : bool :=
+  if N.eqb (o_kind o) 5 then
+    match prepare cfg with
+    | inl (Ok us) =>
+        negb (existsb (fun u => negb (nilb (unasked (o_log o) u))) us && forallb (reachable_with cfg its (o_log o)) us)
+    | _ => true
+    end
+  else true.
+
 (* the executable property of one outcome of a call whose request ids start at 1 + off *)
 Definition c06_ok1_from (off : nat) (i : c06_in) (o : out1) : bool :=
   c06_core i o && log_ok (i_cfg i) (o_log o) (o_attr o) && kind_ok (i_cfg i) (i_items i) o &&
+  giveup_ok (i_cfg i) (i_items i) o &&
   (if N.eqb (o_kind o) 0 then true else negb (live_test_from off i)).
 Definition c06_ok1 := c06_ok1_from 0.
 Definition c06_ok_from (off : nat) (i : c06_in) (o : c06_out) : bool :=
